@@ -2,6 +2,9 @@ module verif/harness
 
 go 1.14
 
-require github.com/Comcast/rulio v0.0.0
+require (
+	github.com/Comcast/rulio v0.0.0
+	gopkg.in/yaml.v2 v2.3.0
+)
 
 replace github.com/Comcast/rulio => /repo
